@@ -1010,6 +1010,8 @@ func mvCommandTie(prop, mode, tie string, rule string) func(a runArgs) error {
 				runIter(&in, r, in.GenN, sink, !regen)
 			case "live":
 				runLive(&in, r, in.GenN, sink)
+			case "delta":
+				runDelta(&in, r, in.GenN, sink)
 			case "visit":
 				runVisit(&in, r, in.GenN, sink, !regen)
 			default:
@@ -1031,6 +1033,11 @@ func mvCommandTie(prop, mode, tie string, rule string) func(a runArgs) error {
 				in.GenN = 10 + n/2
 				sink.Begin(in)
 				runLive(in, r, in.GenN, sink)
+			case "delta":
+				in.GenN = 6 + n/4
+				in.MM = (i/2)%2 == 1
+				sink.Begin(in)
+				runDelta(in, r, in.GenN, sink)
 			case "visit":
 				sink.Begin(in)
 				runVisit(in, r, n, sink, false)
@@ -1121,6 +1128,7 @@ func init() {
 	commands["mvcc-alloc"] = mvCommand("C07", "alloc", "histories as for C06 with user-managed memory on the guard allocator (every block its own mmap, PROT_NONE after free, never reused): after all snapshots are closed and Close() returned, no block may be live, freed twice or unknown")
 	commands["mvcc-gc"] = mvCommand("C06", "gc", "as mvcc, plus forced GC() + wait-for-quiescence points at which the physical level-0 content (item, bornSn, deadSn) is compared with the model after draining its workers; oracle: live/visible versions present, collectable versions gone")
 	commands["mvcc-live"] = mvCommandTie("C01", "live", "Tie.LiveTie", "a generated history, then a LONG-LIVED iterator on a random open snapshot (refresh rate 0/1/2/3/7): SeekFirst/Seek, then Next steps, with 0..6 generated operations of the history generator (Put/Delete/DeleteNode of the snapshot's keys and others, NewSnapshot, Open/Close of other snapshots, GC, drained workers) between any two iterator steps; real collection workers running; iterator observations (Valid, bytes, node identity) and the outputs of the interleaved operations are compared with the model; oracle: the scan yields exactly the items the snapshot held at creation; non-trivial = >= 3 interleaved segments that changed the physical store and a view of >= 2 items")
+	commands["mvcc-delta"] = mvCommandTie("C05", "delta", "Tie.DeltaTie", "delta interleaving on a MOVING store: a generated history over a dozen keys and several epochs, then StoreToDisk of a random open snapshot (UseDeltaInterleaving, one visitor goroutine) paused after EVERY item it writes while 0..4 generated operations run (Put/Delete/DeleteNode, NewSnapshot, Open/Close, GC with drained workers) and, in a third of the pauses, the stored snapshot itself is released, some of its items are deleted and collected; data shards, delta files and per-operation outputs are compared with the model; oracles: data ∪ delta = snapshot, data strictly increasing, LoadFromDisk returns exactly the snapshot; non-trivial = at least one delta item, the physical store changed in >= 2 pauses, view of >= 3 items")
 	commands["mvcc-iter"] = mvCommand("C09", "iter", "a generated history, then an iterator script (SeekFirst/Seek present-absent-below-above/Next/Refresh/SetRefreshRate in {0,1,2,3,7}) on a random open snapshot; non-trivial = the store physically holds versions invisible to that snapshot and the view has >=2 items")
 	commands["mvcc-visit"] = mvCommand("C10", "visit", "a generated history, then Visitor on a random (often the oldest) open snapshot with shards in {1,2,3,4,5,8,16,64}, concurrency in {1,2,8}, the real pivots read through GetRangeSplitItems and fed to the model; 1 in 4 runs injects a callback error (oracle only); non-trivial = some key has several physical versions, view >= 2 items, shards > 1")
 }
